@@ -42,7 +42,9 @@ def check(P: Project, R: Report) -> None:
                 return "handoff:" + nm + "(" + a + ")"
         return None
 
-    ban, bout = run_paths(body, event_of=ev, fallible=False)
+    from ..summaries import predicate_inliner
+
+    ban, bout = run_paths(body, event_of=ev, fallible=False, inliner=predicate_inliner(P, W.wait))
     again = list(bout.cont) + list(bout.normal)
     R.paths += len(again)
     R.need(again, "anchor: the loop body has no path to the next iteration")
